@@ -30,9 +30,14 @@ Record node := mkNode {
   nkind : kind;
   children : list (key * option id);       (* object: (key, value) in insertion order;
                                               array: ([], element) by position; None = NULL *)
-  cb : option Z                            (* Some tag = a user delete callback is installed *)
+  cb : option Z;                           (* Some r = a user delete callback is installed; r identifies
+                                              the registration (0: made when the node was created, else
+                                              a number drawn from the state's counter, never reused) *)
+  ud : bool                                (* _userdata != NULL *)
 }.
 Definition has_cb (n : node) : bool := match cb n with Some _ => true | None => false end.
+(* what json_object_copy_serializer_data looks at: _userdata || _user_delete *)
+Definition has_userinfo (n : node) : bool := has_cb n || ud n.
 
 Definition heap := list (id * node).
 
@@ -44,9 +49,9 @@ Fixpoint hfind (h : heap) (i : id) : option node :=
 Definition hdel (h : heap) (i : id) : heap := filter (fun p => negb (fst p =? i)) h.
 Definition hset (h : heap) (i : id) (n : node) : heap := (i, n) :: hdel h i.
 
-Definition set_rc (n : node) (r : Z) : node := mkNode r (nkind n) (children n) (cb n).
-Definition set_children (n : node) (cs : list (key * option id)) : node := mkNode (rc n) (nkind n) cs (cb n).
-Definition set_cb (n : node) (c : option Z) : node := mkNode (rc n) (nkind n) (children n) c.
+Definition set_rc (n : node) (r : Z) : node := mkNode r (nkind n) (children n) (cb n) (ud n).
+Definition set_children (n : node) (cs : list (key * option id)) : node := mkNode (rc n) (nkind n) cs (cb n) (ud n).
+Definition set_cb (n : node) (c : option Z) (u : bool) : node := mkNode (rc n) (nkind n) (children n) c u.
 
 (* what the user callbacks observe *)
 Inductive ev :=
@@ -117,7 +122,7 @@ Definition opt_ids (o : option id) : list id := match o with Some i => [i] | Non
 
 (* constructors: rc = 1; the driver installs the logging callback with tag 0 at once *)
 Definition new_node (s : state) (k : kind) : res :=
-  ROk (mkSt ((nxt s, mkNode 1 k [] (Some 0)) :: heap_of s) (nxt s + 1)) (nxt s) [].
+  ROk (mkSt ((nxt s, mkNode 1 k [] (Some 0) true) :: heap_of s) (nxt s + 1)) (nxt s) [].
 
 Definition get_node (s : state) (i : id) : res :=
   match hfind (heap_of s) i with
@@ -284,13 +289,18 @@ Definition arr_del (s : state) (p : id) (idx count : Z) : res :=
   end.
 
 (* ------------------------------------------------------------------ userdata *)
-(* json_object_set_userdata / json_object_set_serializer: the old callback is invoked
-   once, on the live node, then replaced; [c] = None installs no callback *)
-Definition set_ud (s : state) (i : id) (c : option Z) : res :=
+(* json_object_set_userdata(jso, userdata, user_delete) and json_object_set_serializer(jso, fn,
+   userdata, user_delete), which calls it: the previously registered delete callback — if
+   there is one, whatever the previous userdata was, NULL included — is invoked once, on the
+   live node, then (userdata, user_delete) are replaced.  [u]: the new userdata is non-NULL;
+   [d]: a delete callback is registered; the registration gets the next number of the
+   state's counter.  (u, d) = (false, false) is the reset.  The serializer function itself
+   has no bearing on ownership and is not modelled. *)
+Definition set_ud (s : state) (i : id) (u d : bool) : res :=
   match hfind (heap_of s) i with
   | None => RUB
   | Some n =>
-      ROk (mkSt (hset (heap_of s) i (set_cb n c)) (nxt s)) 0
+      ROk (mkSt (hset (heap_of s) i (set_cb n (if d then Some (nxt s) else None) u)) (nxt s + 1)) 0
           (match cb n with Some t => [EUser i t] | None => [] end)
   end.
 
@@ -341,10 +351,10 @@ Fixpoint copy_f (f : nat) (custom : bool) (hs : heap) (s : state) (src : id) : c
       match hfind hs src with
       | None => CUB
       | Some n =>
-          if negb custom && has_cb n then CFail
+          if negb custom && has_userinfo n then CFail
           else
             let me := nxt s in
-            let s1 := mkSt ((me, mkNode 1 (nkind n) [] (if custom then Some 0 else None)) :: heap_of s) (me + 1) in
+            let s1 := mkSt ((me, mkNode 1 (nkind n) [] (if custom then Some 0 else None) custom) :: heap_of s) (me + 1) in
             match copy_kids (copy_f f' custom (hdel hs src)) me (children n) s1 with
             | KOk s' => COk s' me
             | KFail => CFail
@@ -476,7 +486,7 @@ Inductive op :=
 | OArrPut (p : id) (idx : Z) (v : option id)
 | OArrIns (p : id) (idx : Z) (v : option id)
 | OArrDel (p : id) (idx count : Z)
-| OSetUd (i : id) (c : option Z)        (* set_userdata / set_serializer; None clears *)
+| OSetUd (i : id) (u d : bool)          (* set_userdata / set_serializer: userdata non-NULL, delete callback given *)
 | OCopy (src : id) (custom : bool)
 | OPtrSet (root : id) (path : option (list key)) (v : option id)
 | OUse (i : id).                        (* read-only use of a handle *)
@@ -493,7 +503,7 @@ Definition step (s : state) (o : op) : res :=
   | OArrPut p idx v => arr_put s p idx v
   | OArrIns p idx v => arr_ins s p idx v
   | OArrDel p idx c => arr_del s p idx c
-  | OSetUd i c => set_ud s i c
+  | OSetUd i u d => set_ud s i u d
   | OCopy src cu => deep_copy s src cu
   | OPtrSet r path v => ptr_set s r path v
   | OUse i => use_node s i
@@ -521,7 +531,7 @@ Definition ledger_step (h : heap) (L : ledger) (o : op) (ret : Z) : ledger :=
         | _ => upd_opt L v (-1)
         end
       else L
-  | OObjDel _ _ | OArrDel _ _ _ | OSetUd _ _ | OUse _ => L
+  | OObjDel _ _ | OArrDel _ _ _ | OSetUd _ _ _ | OUse _ => L
   end.
 
 (* edges and reachability *)
@@ -558,7 +568,7 @@ Definition admissible (s : state) (L : ledger) (o : op) : Prop :=
   | OArrAdd p v => live_kind h p KArray /\ transfer_ok h L p v
   | OArrPut p idx v | OArrIns p idx v => live_kind h p KArray /\ size_t idx /\ transfer_ok h L p v
   | OArrDel p idx c => live_kind h p KArray /\ size_t idx /\ size_t c
-  | OSetUd i _ | OUse i => live h i
+  | OSetUd i _ _ | OUse i => live h i
   | OCopy src _ => live h src
   | OPtrSet r path v =>
       live h r /\
